@@ -15,6 +15,7 @@ import (
 	"github.com/tetratelabs/wazero/verifharness/linkreplay"
 	"github.com/tetratelabs/wazero/verifharness/memacc"
 	"github.com/tetratelabs/wazero/verifharness/memreplay"
+	"github.com/tetratelabs/wazero/verifharness/numeric"
 	"github.com/tetratelabs/wazero/verifharness/registry"
 	"github.com/tetratelabs/wazero/verifharness/sysdef"
 	"github.com/tetratelabs/wazero/verifharness/termination"
@@ -52,6 +53,8 @@ var cmds = map[string]func([]string){
 	"cacheconf-child":       cacheconf.Child,
 	"replay-lifecycle":      lifecycle.Main,
 	"lifecycle-child":       lifecycle.Child,
+	"numeric-cases":         numeric.Cases,
+	"numeric-check":         numeric.Check,
 	"wexec-diff":            wexec.MainDiff,
 	"wexec-diff-child":      wexec.ChildDiff,
 	"wexec-compile":         wexec.MainCompile,
